@@ -40,7 +40,7 @@ def run_tlc(module, cfg_text=None, cfg_file=None, workers=None, timeout=600, sim
         else:
             cfgp = os.path.join(wd, cfg_file or (module + ".cfg"))
         # (-Xss: recursive operators over a 127-segment window / 600-segment payload overflow the default thread stack now and then)
-        cmd = ["java", "-XX:+UseParallelGC", "-Xmx" + heap, "-Xss64m"]
+        cmd = ["java", "-XX:+UseParallelGC", "-Xmx" + heap, "-Xss64m", "-Djava.io.tmpdir=" + wd]      # (TLC unpacks its modules into tmpdir: keep that inside the scratch dir)
         if dfs:
             cmd.append("-Dtlc2.tool.queue.IStateQueue=StateDeque")
         cmd += ["-cp", JAR, "tlc2.TLC", "-noGenerateSpecTE", "-metadir", os.path.join(wd, "states"),
